@@ -148,6 +148,14 @@ Theorem C03_extended_round_trip :
 Proof. exact ext_round_trip. Qed.
 Print Assumptions C03_extended_round_trip.
 
+(* ... and the same statement about [parse], the model of parse_cdc itself (stripping, the empty-circuit shortcut, scanner, parser) *)
+Theorem C03_extended_round_trip_parse :
+  forall reg d, syms_unique reg = true ->
+  forall pf c n', lex_conn_ok reg d pf c = true -> xpconn reg pf (rd_conn d pf c) = Some n' -> (2 * pf <= depth_budget)%nat ->
+  parse reg (to_string reg (Some d) c pf) = Ok (top n').
+Proof. exact ext_parse. Qed.
+Print Assumptions C03_extended_round_trip_parse.
+
 (* the shape of a printed number, for every rational and every number of decimals *)
 Theorem C03_printed_number_shape :
   forall d q, fmtE d (Fin q) = num_text (np_neg (fmt_parts d q)) (np_c (fmt_parts d q)) (np_frac (fmt_parts d q)) (np_eneg (fmt_parts d q)) (np_edigs (fmt_parts d q))
